@@ -11,7 +11,8 @@ import sys
 
 VERIF = os.path.dirname(os.path.dirname(os.path.abspath(__file__)))
 SKIP = ('.git/', 'lean/.lake/', 'evidence/', 'replays/', 'seeded/', 'reviews/', 'lean/PybtexModel/Gen/', '__pycache__', 'lean/DriverOne.lean',
-        'MANIFEST.json', 'DESIGN.md', 'lean/lake-manifest.json')
+        'MANIFEST.json', 'DESIGN.md', 'lean/lake-manifest.json',
+        'harness/check.py', 'harness/linecov.py', 'harness/design_tables.py', 'harness/merge_copy.py', 'known_findings.json', 'coverage/C09.md')
 
 
 def sh(*cmd, **kw):
@@ -58,7 +59,7 @@ def main():
                 else:
                     bp = '/tmp/merge-base.tmp'
                     open(bp, 'wb').write(b or b'')
-                    r = sh('git', 'merge-file', mine_path, bp, p)
+                    r = sh(*(['git', 'merge-file'] + (['--union'] if rel == 'lean/PybtexModel.lean' else []) + [mine_path, bp, p]))
                     if r.returncode != 0:
                         print('CONFLICT in', rel, r.stdout[-300:])
     for kind, rel in sorted(out):
